@@ -48,3 +48,21 @@ async def app(scope, receive, send):
         await send({"type": "http.response.start", "status": 200, "headers": [(b"content-length", b"%d" % len(body))]})
         await send({"type": "http.response.body", "body": body})
         _log("done", scope["path"])
+
+
+async def failing_app(scope, receive, send):
+    """Start-up fails (lifespan.startup.failed); were the server to serve all the same, requests are answered (and logged)."""
+    if scope["type"] == "lifespan":
+        await receive()
+        _log("lifespan", "startup")
+        await send({"type": "lifespan.startup.failed", "message": "no database"})
+        await receive()
+    else:
+        await app(scope, receive, send)
+
+
+async def raising_app(scope, receive, send):
+    """Raises inside the lifespan scope (no lifespan support): the server serves without lifespan."""
+    if scope["type"] == "lifespan":
+        raise RuntimeError("lifespan not supported")
+    await app(scope, receive, send)
